@@ -394,6 +394,9 @@ pub trait Cfg<'a, I: InK<'a>>: Sized + 'static {
     fn rep_ctx_max(_p: BP<'a, I, Self>) -> BP<'a, I, Self> {
         unsupported("rep_ctx_max")
     }
+    fn rep_ctx_pre(_p: BP<'a, I, Self>, _st: ast::Bounds, _kind: u8) -> BP<'a, I, Self> {
+        unsupported("rep_ctx_pre")
+    }
     fn with_state(_p: BP<'a, I, Self>) -> BP<'a, I, Self> {
         unsupported("with_state")
     }
@@ -463,6 +466,30 @@ impl<'a, I: InK<'a>> Cfg<'a, I> for CRichCx {
     }
     fn rep_ctx_max(p: BP<'a, I, Self>) -> BP<'a, I, Self> {
         p.repeated().configure(|cfg, ctx: &char| cfg.at_most(ast::count_of(*ctx))).collect::<Vec<_>>().map(Val::L).fin()
+    }
+    fn rep_ctx_pre(p: BP<'a, I, Self>, st: ast::Bounds, kind: u8) -> BP<'a, I, Self> {
+        let mut r = p.repeated();
+        if st.exactly {
+            r = r.exactly(st.min as usize);
+        } else {
+            if st.min > 0 {
+                r = r.at_least(st.min as usize);
+            }
+            if let Some(m) = st.max {
+                r = r.at_most(m as usize);
+            }
+        }
+        r.configure(move |cfg, ctx: &char| {
+            let n = ast::count_of(*ctx);
+            match kind {
+                0 => cfg.exactly(n),
+                1 => cfg.at_most(n),
+                _ => cfg.at_least(n),
+            }
+        })
+        .collect::<Vec<_>>()
+        .map(Val::L)
+        .fin()
     }
     fn try_rep_ctx(p: BP<'a, I, Self>) -> BP<'a, I, Self> {
         p.repeated()
@@ -740,8 +767,14 @@ fn build0<'a, I: InK<'a>, C: Cfg<'a, I>>(g: &G, pr: Probes) -> BP<'a, I, C> {
             let (k, ok) = (*k, *ok);
             custom(move |inp| {
                 let before = inp.cursor();
-                for _ in 0..k {
-                    if inp.next().is_none() {
+                for _ in 0..(k % 10) {
+                    if k >= 10 {
+                        // the same parser written with peek() + skip()
+                        if inp.peek().is_none() {
+                            return Err(<C::Err as ErrK<'a, I>>::custom_err(inp.span_since(&before), "CU".to_string()));
+                        }
+                        inp.skip();
+                    } else if inp.next().is_none() {
                         return Err(<C::Err as ErrK<'a, I>>::custom_err(inp.span_since(&before), "CU".to_string()));
                     }
                 }
@@ -916,5 +949,12 @@ fn build0<'a, I: InK<'a>, C: Cfg<'a, I>>(g: &G, pr: Probes) -> BP<'a, I, C> {
         RepCtx(a) => C::rep_ctx(build::<I, C>(a, pr)),
         RepCtxMax(a) => C::rep_ctx_max(build::<I, C>(a, pr)),
         TryRepCtx(a) => C::try_rep_ctx(build::<I, C>(a, pr)),
+        RepCtxPre(a, st, kind) => C::rep_ctx_pre(build::<I, C>(a, pr), *st, *kind),
+        IntoIter(a, sink) => {
+            if matches!(sink, Sink::Str) {
+                return unsupported("Sink::Str on into_iter");
+            }
+            apply_sink::<I, C, _>(build::<I, C>(a, pr).map(ast::items_of).into_iter(), sink, pr)
+        }
     }
 }
